@@ -123,12 +123,13 @@ func codecEntryFromJSON(j *codecEntry) *sunlight.LogEntry {
 }
 
 type codecRun struct {
-	o      *Opts
-	r      *Rand
-	t      *Trace
-	s      *Stats
-	fails  []OracleFailure
-	search bool
+	sampled map[string]bool
+	o       *Opts
+	r       *Rand
+	t       *Trace
+	s       *Stats
+	fails   []OracleFailure
+	search  bool
 }
 
 func (c *codecRun) fail(sig, detail string, cs codecCase) {
@@ -136,6 +137,17 @@ func (c *codecRun) fail(sig, detail string, cs codecCase) {
 		c.fails = append(c.fails, OracleFailure{Property: "C10", Signature: sig, Detail: detail, Case: cs})
 	}
 	c.s.Count("oracle-fail/" + sig)
+}
+
+// sample records the first case of every kind as an evidence sample.
+func (c *codecRun) sample(kind string, v any) {
+	if c.sampled == nil {
+		c.sampled = map[string]bool{}
+	}
+	if !c.sampled[kind] && len(c.sampled) < 5 {
+		c.sampled[kind] = true
+		c.s.Sample(map[string]any{"kind": kind, "case": v})
+	}
 }
 
 func (c *codecRun) line(format string, a ...any) {
@@ -296,6 +308,7 @@ func codecIndependentMTL(e *sunlight.LogEntry) ([]byte, bool) {
 // checkEntry: one entry through encoder, decoder and all entry oracles.
 func (c *codecRun) checkEntry(e *sunlight.LogEntry, t0, rest []byte, class string) {
 	cs := codecCase{Kind: "entry", Entry: codecEntryToJSON(e), T0: hex.EncodeToString(t0), Rest: hex.EncodeToString(rest)}
+	c.sample("entry", cs)
 	enc, p1 := codecSafeAppend(t0, e)
 	mtl, p2 := codecSafeMTL(e)
 	var fps []byte
@@ -396,6 +409,9 @@ func codecTrunc2(s string) string {
 // checkBytes: one byte string through both decoders; canonicity oracle.
 func (c *codecRun) checkBytes(in []byte, class string) {
 	cs := codecCase{Kind: "bytes", Hex: codecRle(in)}
+	if len(in) > 12 {
+		c.sample("malformed-bytes:"+class, cs)
+	}
 	for _, strict := range []bool{false, true} {
 		res := codecSafeRead(strict, in)
 		if strict {
@@ -969,6 +985,9 @@ func (c *codecRun) checkTile(t tlog.Tile, class string) {
 
 func (c *codecRun) checkPath(p string, class string) {
 	cs := codecCase{Kind: "path", Path: hex.EncodeToString([]byte(p))}
+	if class == "mutated" {
+		c.sample("path:"+p, cs)
+	}
 	c.s.Eval("path/"+p, true)
 	var t tlog.Tile
 	var err error
